@@ -455,12 +455,29 @@ static void setup_matrices(void)
    MIX[6] = &mapping_matrix_fifthoa_mixing; MIXD[6] = mapping_matrix_fifthoa_mixing_data; DEMIX[6] = &mapping_matrix_fifthoa_demixing; DEMIXD[6] = mapping_matrix_fifthoa_demixing_data;
 }
 /* a MappingMatrix object as the encoder builds it (header + cells) */
+/* a custom (possibly non-square) matrix for the correspondence cases: when set, make_matrix / mx_name use it */
+static struct { int on, rows, cols; opus_int16 cells[64]; } g_cm;
 static MappingMatrix *make_matrix(int o, int demix)
 {
    const MappingMatrix *h = demix ? DEMIX[o] : MIX[o];
-   MappingMatrix *m = (MappingMatrix *)malloc(mapping_matrix_get_size(h->rows, h->cols));
+   MappingMatrix *m;
+   if (g_cm.on) {
+      m = (MappingMatrix *)malloc(mapping_matrix_get_size(g_cm.rows, g_cm.cols));
+      mapping_matrix_init(m, g_cm.rows, g_cm.cols, 0, g_cm.cells, g_cm.rows * g_cm.cols * (int)sizeof(opus_int16));
+      return m;
+   }
+   m = (MappingMatrix *)malloc(mapping_matrix_get_size(h->rows, h->cols));
    mapping_matrix_init(m, h->rows, h->cols, h->gain, demix ? DEMIXD[o] : MIXD[o], h->rows * h->cols * (int)sizeof(opus_int16));
    return m;
+}
+/* "<o> mix|demix" for a built-in matrix, "0 m<rows>:<cols>:<cells>" for the custom one */
+static const char *mx_name(int o, int demix)
+{
+   static char b[700]; int i, n;
+   if (!g_cm.on) { sprintf(b, "%d %s", o, demix ? "demix" : "mix"); return b; }
+   n = sprintf(b, "0 m%d:%d:", g_cm.rows, g_cm.cols);
+   for (i = 0; i < g_cm.rows * g_cm.cols; i++) n += sprintf(b + n, "%s%d", i ? "," : "", g_cm.cells[i]);
+   return b;
 }
 static unsigned f2u(float f) { unsigned u; memcpy(&u, &f, 4); return u; }
 
@@ -471,7 +488,7 @@ static void do_mixin(int o, int demix, int input_rows, int output_row, int outpu
    float *out = (float *)calloc(output_rows * frame_size + 1, sizeof(float));
    int i;
    memcpy(inx, in, sizeof(opus_int16) * input_rows * frame_size);
-   printf("I layout mixin %d %s %d %d %d %d ", o, demix ? "demix" : "mix", input_rows, output_row, output_rows, frame_size);
+   printf("I layout mixin %s %d %d %d %d ", mx_name(o, demix), input_rows, output_row, output_rows, frame_size);
    if (!(input_rows * frame_size)) printf("-");
    for (i = 0; i < input_rows * frame_size; i++) printf("%s%d", i ? "," : "", in[i]);
    printf("\n"); fflush(stdout);
@@ -491,7 +508,7 @@ static void do_mixout(int o, int demix, int input_row, int input_rows, int outpu
    int i, nin = frame_size ? input_rows * (frame_size - 1) + 1 : 0;
    memcpy(inx, in, sizeof(float) * nin);
    memcpy(outx, out, sizeof(opus_int16) * output_rows * frame_size);
-   printf("I layout mixout %d %s %d %d %d %d ", o, demix ? "demix" : "mix", input_row, input_rows, output_rows, frame_size);
+   printf("I layout mixout %s %d %d %d %d ", mx_name(o, demix), input_row, input_rows, output_rows, frame_size);
    if (!nin) printf("-");
    for (i = 0; i < nin; i++) printf("%s%u", i ? "," : "", f2u(in[i]));
    printf(" ");
@@ -515,7 +532,7 @@ static void do_mixinf(int o, int demix, int input_rows, int output_row, int outp
    float *out = (float *)calloc(output_rows * frame_size + 1, sizeof(float)), res[8];
    int i;
    memcpy(inx, in, sizeof(float) * input_rows * frame_size);
-   printf("I layout mixinf %d %s %d %d %d %d ", o, demix ? "demix" : "mix", input_rows, output_row, output_rows, frame_size);
+   printf("I layout mixinf %s %d %d %d %d ", mx_name(o, demix), input_rows, output_row, output_rows, frame_size);
    pr_bits(in, input_rows * frame_size);
    printf("\n"); fflush(stdout);
    mapping_matrix_multiply_channel_in_float(m, inx, input_rows, out, output_row, output_rows, frame_size);
@@ -531,7 +548,7 @@ static void do_mixoutf(int o, int demix, int input_row, int input_rows, int outp
    float *outx = (float *)malloc(sizeof(float) * (output_rows * frame_size + 1));
    memcpy(inx, in, sizeof(float) * nin);
    memcpy(outx, out0, sizeof(float) * output_rows * frame_size);
-   printf("I layout mixoutf %d %s %d %d %d %d ", o, demix ? "demix" : "mix", input_row, input_rows, output_rows, frame_size);
+   printf("I layout mixoutf %s %d %d %d %d ", mx_name(o, demix), input_row, input_rows, output_rows, frame_size);
    pr_bits(in, nin); printf(" "); pr_bits(out0, output_rows * frame_size);
    printf("\n"); fflush(stdout);
    mapping_matrix_multiply_channel_out_float(m, inx, input_row, input_rows, outx, output_rows, frame_size);
@@ -545,7 +562,7 @@ static void do_mixin24(int o, int demix, int input_rows, int output_row, int out
    float *out = (float *)calloc(output_rows * frame_size + 1, sizeof(float)), res[8];
    int i;
    memcpy(inx, in, sizeof(opus_int32) * input_rows * frame_size);
-   printf("I layout mixin24 %d %s %d %d %d %d ", o, demix ? "demix" : "mix", input_rows, output_row, output_rows, frame_size);
+   printf("I layout mixin24 %s %d %d %d %d ", mx_name(o, demix), input_rows, output_row, output_rows, frame_size);
    if (!(input_rows * frame_size)) printf("-");
    for (i = 0; i < input_rows * frame_size; i++) printf("%s%d", i ? "," : "", in[i]);
    printf("\n"); fflush(stdout);
@@ -562,7 +579,7 @@ static void do_mixout24(int o, int demix, int input_row, int input_rows, int out
    opus_int32 *outx = (opus_int32 *)malloc(sizeof(opus_int32) * (output_rows * frame_size + 1));
    memcpy(inx, in, sizeof(float) * nin);
    memcpy(outx, out0, sizeof(opus_int32) * output_rows * frame_size);
-   printf("I layout mixout24 %d %s %d %d %d %d ", o, demix ? "demix" : "mix", input_row, input_rows, output_rows, frame_size);
+   printf("I layout mixout24 %s %d %d %d %d ", mx_name(o, demix), input_row, input_rows, output_rows, frame_size);
    pr_bits(in, nin); printf(" ");
    if (!(output_rows * frame_size)) printf("-");
    for (i = 0; i < output_rows * frame_size; i++) printf("%s%d", i ? "," : "", out0[i]);
@@ -634,6 +651,44 @@ static void gen_exact_input(vrng *r, opus_int16 *in, int rows, int frame_size)
    }
 }
 
+/* all six multiply functions on random NON-SQUARE matrices (rows != cols in both directions, incl. the shapes a projection
+   decoder can be created with: rows = channels < cols = streams+coupled), so that a wrong column-major stride shows */
+static void run_matrix_nonsquare(vrng *r, long cases)
+{
+   long c;
+   for (c = 0; c < cases; c++) {
+      int rows, cols, i, k, frame_size = vrange(r, 1, 3), j = vbelow(r, 16);
+      opus_int16 in16[8 * 3], out16[8 * 3]; opus_int32 in24[8 * 3], out24[8 * 3]; float fin[8 * 3], fout[8 * 3], unit = ldexpf(1.f, -j);
+      do { rows = vrange(r, 1, 7); cols = vrange(r, 1, 7); } while (rows == cols);
+      g_cm.on = 1; g_cm.rows = rows; g_cm.cols = cols;
+      for (i = 0; i < rows * cols; i++) g_cm.cells[i] = (opus_int16)(vchance(r, 15) ? 0 : vchance(r, 10) ? (vchance(r, 50) ? 32767 : -32768) : vrange(r, -32768, 32767));
+      /* in_* : input_rows <= cols channels in, one output row */
+      { int ir = vchance(r, 70) ? cols : vrange(r, 1, cols), orow = vbelow(r, rows), ors = rows >= 2 && vchance(r, 50) ? 2 : 1;
+        gen_exact_input(r, in16, ir, frame_size);
+        do_mixin(0, 0, ir, orow, ors, frame_size, in16);
+        memset(fin, 0, sizeof fin);
+        if (vchance(r, 50)) for (i = 0; i < frame_size; i++) fin[i * ir + vbelow(r, ir)] = (float)vrange(r, -255, 255) * unit;
+        else for (i = 0; i < frame_size * ir; i++) fin[i] = (float)vrange(r, -7, 7) * unit;
+        do_mixinf(0, 0, ir, orow, ors, frame_size, fin);
+        memset(in24, 0, sizeof in24);
+        if (vchance(r, 50)) for (i = 0; i < frame_size; i++) in24[i * ir + vbelow(r, ir)] = vrange(r, -255, 255) * (1 << j);
+        else for (i = 0; i < frame_size * ir; i++) in24[i] = vrange(r, -7, 7) * (1 << j);
+        do_mixin24(0, 0, ir, orow, ors, frame_size, in24); }
+      /* out_* : one input row (column of the matrix) into output_rows <= rows channels */
+      { int irow = vbelow(r, cols), ors = vchance(r, 70) ? rows : vrange(r, 1, rows);
+        for (i = 0; i < frame_size; i++) fin[i] = (float)vrange(r, -40000, 40000) / 32768.f;
+        for (k = 0; k < frame_size * ors; k++) out16[k] = (opus_int16)(vchance(r, 60) ? 0 : vrange(r, -32768, 32767));
+        do_mixout(0, 0, irow, 1, ors, frame_size, fin, out16);
+        for (i = 0; i < frame_size; i++) fin[i] = (float)vrange(r, -127, 127) * unit;
+        for (k = 0; k < frame_size * ors; k++) fout[k] = vchance(r, 50) ? 0.f : (float)vrange(r, -4194303, 4194303) * ldexpf(1.f, -15 - j);
+        do_mixoutf(0, 0, irow, 1, ors, frame_size, fin, fout);
+        for (i = 0; i < frame_size; i++) fin[i] = (float)vrange(r, -9000000, 9000000) / 8388608.f;
+        for (k = 0; k < frame_size * ors; k++) out24[k] = vchance(r, 60) ? 0 : vrange(r, -9000000, 9000000);
+        do_mixout24(0, 0, irow, 1, ors, frame_size, fin, out24); }
+      g_cm.on = 0;
+   }
+}
+
 static void run_matrix(uint64_t seed, long cases)
 {
    vrng r; long c; r.s = seed;
@@ -660,6 +715,7 @@ static void run_matrix(uint64_t seed, long cases)
       do_mixout(o, demix, vbelow(&r, ch), vchance(&r, 50) ? 1 : 2, ch, frame_size, fin, out);
    }
    run_matrix_float(&r, cases / 2 + 20);
+   run_matrix_nonsquare(&r, cases / 2 + 40);
    run_matrix_int24(&r, cases / 2 + 20);
    /* saturation boundary of out_short: accumulator chosen so that acc + ((cell*sample+16384)>>15) lands on
       32766..32769 and -32767..-32770 for a random cell of the matrix column */
@@ -997,6 +1053,82 @@ static int run_search(uint64_t seed, long cases, int verbose, int directed)
    return 0;
 }
 
+/* S4: projection decoders with NON-SQUARE demixing matrices (channels < streams+coupled, the only non-square shape
+   opus_projection_decoder_create accepts), all three APIs.  For each format the output must equal the matrix applied - in
+   the library's own operation order - to the stand-alone decoder outputs of the same format.  Only columns < channels
+   take part: the decoder routes decoded channel c to output channel c through the identity layout of `channels` entries. */
+static int run_nonsq(uint64_t seed, long cases)
+{
+   vrng r; long cno; r.s = seed;
+   static unsigned char pkt[60000], stdp[48 * 1275 + 200];
+   static float in[5760 * 8], outf[5760 * 8], sf[8][5760 * 2];
+   static opus_int16 out16[5760 * 8], s16[8][5760 * 2];
+   static opus_int32 out24[5760 * 8], s24[8][5760 * 2];
+   for (cno = 0; cno < cases; cno++) {
+      int st = vrange(&r, 1, 4), co = vrange(&r, 0, st), nin = st + co, ch = nin > 1 ? vrange(&r, 1, nin - (vchance(&r, 85) ? 1 : 0)) : 1;
+      int Fs = RATES[vbelow(&r, 5)], frame_size = Fs / (vchance(&r, 50) ? 50 : 100), err = 0, s, i, k, row, fr, nframes = 3;
+      unsigned char map[8], dm[8 * 8 * 2]; opus_int16 cells[64];
+      OpusMSEncoder *enc; OpusProjectionDecoder *pd[3]; OpusDecoder *sd[3][8];
+      char sig[200];
+      for (i = 0; i < nin; i++) map[i] = i;
+      enc = opus_multistream_encoder_create(Fs, nin, st, co, map, OPUS_APPLICATION_AUDIO, &err);
+      if (!enc) { report_diff("nonsq", "multistream encoder creation failed", "OK", verr(err)); continue; }
+      opus_multistream_encoder_ctl(enc, OPUS_SET_BITRATE(vrange(&r, 16, 96) * 1000 * nin));
+      for (i = 0; i < ch * nin; i++) { int v = vchance(&r, 15) ? 0 : vchance(&r, 8) ? (vchance(&r, 50) ? 32767 : -32768) : vrange(&r, -24000, 24000);
+         cells[i] = (opus_int16)v; dm[2 * i] = (unsigned char)(v & 255); dm[2 * i + 1] = (unsigned char)((v >> 8) & 255); }
+      for (k = 0; k < 3; k++) {
+         pd[k] = opus_projection_decoder_create(Fs, ch, st, co, dm, 2 * ch * nin, &err);
+         for (s = 0; s < st; s++) sd[k][s] = opus_decoder_create(Fs, s < co ? 2 : 1, &err);
+      }
+      sprintf(sig, "nonsq channels=%d streams=%d coupled=%d (matrix %dx%d) Fs=%d frame=%d seed=%llu case=%ld", ch, st, co, ch, nin, Fs, frame_size, (unsigned long long)seed, cno);
+      if (!pd[0] || !pd[1] || !pd[2]) { report_diff(sig, "projection decoder creation failed for channels <= streams+coupled", "OK", verr(err)); goto done; }
+      printf("C nonsq %dx%d Fs=%d\n", ch, nin, Fs);
+      n_cases++;
+      for (fr = 0; fr < nframes; fr++) {
+         int len, r16, r24, rf; const unsigned char *sub[40]; long sublen[40]; const char *why;
+         gen_signal(&r, in, nin, frame_size, Fs, (long)fr * frame_size);
+         len = opus_multistream_encode_float(enc, in, frame_size, pkt, sizeof pkt);
+         if (len <= 0) { report_diff(sig, "encoder returned an error", ">0", verr(len)); break; }
+         why = split_ms(pkt, len, st, Fs, frame_size, sub, sublen);
+         if (why) { report_diff(sig, "packet structure", "ok", why); break; }
+         { unsigned char *pp = vexact(pkt, len);
+           r16 = opus_projection_decode(pd[0], pp, len, out16, frame_size, 0);
+           r24 = opus_projection_decode24(pd[1], pp, len, out24, frame_size, 0);
+           rf = opus_projection_decode_float(pd[2], pp, len, outf, frame_size, 0);
+           free(pp); }
+         if (r16 != frame_size || r24 != frame_size || rf != frame_size) { report_diff(sig, "projection decode does not return the frame size", "frame_size", "error"); break; }
+         for (s = 0; s < st; s++) {
+            long sl = sublen[s]; const unsigned char *sp = sub[s];
+            if (s != st - 1) { sl = to_standard(sub[s], sublen[s], stdp); sp = stdp; }
+            { unsigned char *pp = vexact(sp, sl > 0 ? sl : 0);
+              opus_decode(sd[0][s], pp, (opus_int32)sl, s16[s], frame_size, 0);
+              opus_decode24(sd[1][s], pp, (opus_int32)sl, s24[s], frame_size, 0);
+              opus_decode_float(sd[2][s], pp, (opus_int32)sl, sf[s], frame_size, 0);
+              free(pp); }
+         }
+         n_checks += 3;
+         for (i = 0; i < frame_size; i++) for (row = 0; row < ch; row++) {
+            opus_int32 a16 = 0, a24 = 0; volatile float af = 0; char a[60], b[60], w[160];
+            for (k = 0; k < ch; k++) {      /* decoded channel k = output channel k of the identity layout: column k */
+               int s2 = k < 2 * co ? k / 2 : k - co, idx = k < 2 * co ? 2 * i + k % 2 : i;
+               opus_int32 c = cells[ch * k + row];
+               a16 += (c * (opus_int32)s16[s2][idx] + 16384) >> 15; if (a16 > 32767) a16 = 32767; if (a16 < -32768) a16 = -32768;
+               a24 = (opus_int32)((opus_int64)a24 + (((opus_int64)c * s24[s2][idx] + 16384) >> 15));
+               { volatile float t1 = (1 / 32768.f) * c; volatile float t2 = t1 * sf[s2][idx]; af = af + t2; }
+            }
+            if (a16 != out16[i * ch + row]) { sprintf(a, "%d", a16); sprintf(b, "%d", out16[i * ch + row]); sprintf(w, "opus_projection_decode: frame %d channel %d sample %d != demixing matrix x stand-alone int16 outputs", fr, row, i); report_diff(sig, w, a, b); goto done; }
+            if (a24 != out24[i * ch + row]) { sprintf(a, "%d", a24); sprintf(b, "%d", out24[i * ch + row]); sprintf(w, "opus_projection_decode24: frame %d channel %d sample %d != demixing matrix x stand-alone int24 outputs", fr, row, i); report_diff(sig, w, a, b); goto done; }
+            if (f2u(af) != f2u(outf[i * ch + row]) && !(af == 0 && outf[i * ch + row] == 0)) { sprintf(a, "%08x", f2u(af)); sprintf(b, "%08x", f2u(outf[i * ch + row])); sprintf(w, "opus_projection_decode_float: frame %d channel %d sample %d != demixing matrix x stand-alone float outputs", fr, row, i); report_diff(sig, w, a, b); goto done; }
+         }
+      }
+   done:
+      for (k = 0; k < 3; k++) { if (pd[k]) opus_projection_decoder_destroy(pd[k]); for (s = 0; s < st; s++) opus_decoder_destroy(sd[k][s]); }
+      opus_multistream_encoder_destroy(enc);
+   }
+   printf("SEARCH cases=%ld checks=%ld diffs=%ld\n", n_cases, n_checks, n_diff);
+   return 0;
+}
+
 /* unit impulses through the mixing matrix (encoder object) then the demixing matrix (decoder object) */
 static int run_impulse(void)
 {
@@ -1096,6 +1228,7 @@ int main(int argc, char **argv)
    else if (argc >= 4 && !strcmp(argv[1], "projdec")) run_projdec(strtoull(argv[2], 0, 10), atol(argv[3]));
    else if (argc >= 2 && !strcmp(argv[1], "projvla")) return run_projvla();
    else if (argc >= 4 && !strcmp(argv[1], "search")) return run_search(strtoull(argv[2], 0, 10), atol(argv[3]), argc >= 5 ? atoi(argv[4]) : 0, 0);
+   else if (argc >= 4 && !strcmp(argv[1], "nonsq")) return run_nonsq(strtoull(argv[2], 0, 10), atol(argv[3]));
    else if (argc >= 4 && !strcmp(argv[1], "straddle")) return run_search(strtoull(argv[2], 0, 10), atol(argv[3]), argc >= 5 ? atoi(argv[4]) : 0, 1);
    else if (argc >= 2 && !strcmp(argv[1], "impulse")) return run_impulse();
    else if (argc >= 2 && !strcmp(argv[1], "rfc")) return run_rfc();
